@@ -94,6 +94,8 @@ func genKeys() []*keyT {
 	add("p256", k8, &k8.PublicKey, pemOf("PRIVATE KEY", must(x509.MarshalPKCS8PrivateKey(k8))))
 	k9 := must(ecdsa.GenerateKey(elliptic.P256(), crand.Reader)) // 9: registered for C-ALPHA
 	add("p256", k9, &k9.PublicKey, pemOf("PRIVATE KEY", must(x509.MarshalPKCS8PrivateKey(k9))))
+	k10 := must(ecdsa.GenerateKey(elliptic.P256(), crand.Reader)) // 10: registered for the long client id
+	add("p256", k10, &k10.PublicKey, pemOf("PRIVATE KEY", must(x509.MarshalPKCS8PrivateKey(k10))))
 	return ks
 }
 
@@ -117,6 +119,9 @@ func nearMiss(r drv.Rand, s string) string {
 				rep = "\u212a"
 			}
 			return s[:i] + rep + s[i+1:]
+		}
+		if s == "" {
+			return "\u017f"
 		}
 		return strings.ToUpper(s[:1]) + s[1:]
 	case 13: // one letter in the middle in the other case
@@ -509,6 +514,18 @@ func baseWorld(keys []*keyT) world {
 	}
 }
 
+// longClient is a legal but unusual registration: an id of more than 4 KiB (anything that
+// compares, caches or copies identifiers through a fixed-size buffer sees only a prefix)
+var longClient = "c-long-" + strings.Repeat("0123456789abcdef", 270)
+
+// longWorld = baseWorld + the long client (used by a few cases only: its id is part of every input term)
+func longWorld(keys []*keyT) world {
+	w := baseWorld(keys)
+	w.regs = append(w.regs, reg{longClient, "l1", keys[10]})
+	w.clients = append(w.clients, [2]string{longClient, "private_key_jwt"})
+	return w
+}
+
 func (w world) regsOf(client string) []reg {
 	var out []reg
 	for _, r := range w.regs {
@@ -537,7 +554,7 @@ func main() {
 	extra := map[string]any{"clock_ambiguous": 0, "helper_sign_failed": 0}
 	bump := func(k string) { extra[k] = extra[k].(int) + 1 }
 
-	routerFx = newRouterFixture(baseWorld(keys))
+	routerFx = newRouterFixture(longWorld(keys))
 	for i := 0; i < n; i++ {
 		switch {
 		case i%3 == 2:
@@ -927,6 +944,9 @@ func claimsJSON(c claimsD, audString bool, r drv.Rand, omitEmpty bool) []byte {
 	if r.Chance(1, 4) {
 		m["jti"] = fmt.Sprintf("%x", r.Bytes(6))
 	}
+	if r.Chance(1, 30) { // a payload of more than 4 KiB
+		m["jti"] = strings.Repeat(fmt.Sprintf("%x", r.Bytes(8)), 300)
+	}
 	return must(json.Marshal(m))
 }
 
@@ -936,11 +956,15 @@ func assertionCase(r drv.Rand, w *emit.Writer, wd world, bump func(string)) {
 	vs := drv.Pick(r, vsets)
 	custom := r.Chance(1, 7)
 	named := drv.Pick(r, []string{"c-alpha", "c-alpha", "c-beta", "c-beta", "c-gamma", "c-delta"})
+	long := r.Chance(1, 25)
+	if long {
+		wd, named = longWorld(wd.keys), longClient
+	}
 	entryTerm := entry
 	router := r.Chance(9, 20)
 	otherTenant := ""
 	cycle := ""
-	if router && r.Chance(4, 10) {
+	if router && !long && r.Chance(4, 10) {
 		cycle = drv.Pick(r, []string{"base", "cross"})
 		named = drv.Pick(r, []string{"c-alpha", "c-beta"})
 	}
@@ -956,7 +980,7 @@ func assertionCase(r drv.Rand, w *emit.Writer, wd world, bump func(string)) {
 	}
 	own := drv.Pick(r, wd.regsOf(named))
 	plan := tokPlan{kind: "jws", key: own.key, kid: own.kid, alg: drv.Pick(r, naturalAlgs(own.key.kind))}
-	tags := []string{"kind=assertion", "entry=" + entry, "helper=0"}
+	tags := []string{"kind=assertion", "entry=" + entry, "helper=0", fmt.Sprintf("long_client=%v", long)}
 	if router {
 		tags = append(tags, fmt.Sprintf("router_legacy=%v", rcall.legacy), "router_ep="+rcall.ep, "client_id_param="+cidClass(rcall.cid, named), "owner="+cidClass(rcall.owner, named))
 	}
@@ -971,6 +995,9 @@ func assertionCase(r drv.Rand, w *emit.Writer, wd world, bump func(string)) {
 	if router { // twelve (router, endpoint) cells: more of them have to get past the assertion checks
 		nm = []int{0, 0, 0, 0, 0, 0, 1, 1, 1, 2}[r.IntN(10)]
 		near = r.Chance(2, 10)
+	}
+	if long && r.Bool() { // the near-miss differs from the 4 KiB id only at its far end
+		near = true
 	}
 	if near {
 		nm = 1
@@ -1165,7 +1192,7 @@ func assertionCase(r drv.Rand, w *emit.Writer, wd world, bump func(string)) {
 
 var helperPaths = []string{"SignedJWTProfileAssertion", "GenerateJWTProfileToken", "AssertionStringFromFileData",
 	"profile.TokenSource", "profile.TokenSource.discover", "profile.TokenSource.keyfiledata", "profile.TokenSource.keyfile",
-	"tokenexchange.JWTProfile", "rs.Introspect", "rp.DeviceAuthorization", "rp.CodeExchangeHandler", "rp.CodeExchangeHandler"}
+	"tokenexchange.JWTProfile", "rs.Introspect", "rs.Introspect.keyfile", "rp.DeviceAuthorization", "rp.CodeExchangeHandler", "rp.CodeExchangeHandler"}
 
 type capTransport struct {
 	issuer string
@@ -1230,7 +1257,18 @@ var helperPool []*helperInst
 var helperCreated int
 
 func keyFileJSON(cd cand) []byte {
-	return must(json.Marshal(map[string]string{"type": "serviceaccount", "keyId": cd.kid, "key": string(cd.key.pem), "userId": cd.client}))
+	return must(json.Marshal(map[string]string{"type": "serviceaccount", "keyId": cd.kid, "key": string(cd.key.pem), "userId": cd.client, "clientId": cd.client}))
+}
+
+// keyFilePath writes the key file to a temporary file; rm removes it again.
+func keyFilePath(cd cand) (path string, rm func(), err error) {
+	f, err := os.CreateTemp("", "c14-keyfile-*.json")
+	if err != nil {
+		return "", func() {}, err
+	}
+	_, _ = f.Write(keyFileJSON(cd))
+	_ = f.Close()
+	return f.Name(), func() { _ = os.Remove(f.Name()) }, nil
 }
 
 // newHelperInst builds the long-lived object of one helper path (discovery, if any, happens here).
@@ -1279,13 +1317,11 @@ func newHelperInst(which, issuer string, aud []string, cd cand) (*helperInst, er
 			ts, err = profile.NewJWTProfileTokenSourceFromKeyFileData(ctx, issuer, keyFileJSON(cd), []string{"openid"},
 				profile.WithHTTPClient(hc), profile.WithStaticTokenEndpoint(issuer, tokenURL))
 		default:
-			var f *os.File
-			if f, err = os.CreateTemp("", "c14-keyfile-*.json"); err == nil {
-				_, _ = f.Write(keyFileJSON(cd))
-				_ = f.Close()
-				ts, err = profile.NewJWTProfileTokenSourceFromKeyFile(ctx, issuer, f.Name(), []string{"openid"}, profile.WithHTTPClient(hc))
-				_ = os.Remove(f.Name())
+			path, rm, e := keyFilePath(cd)
+			if err = e; err == nil {
+				ts, err = profile.NewJWTProfileTokenSourceFromKeyFile(ctx, issuer, path, []string{"openid"}, profile.WithHTTPClient(hc))
 			}
+			rm()
 		}
 		if err != nil {
 			return nil, err
@@ -1313,8 +1349,18 @@ func newHelperInst(which, issuer string, aud []string, cd cand) (*helperInst, er
 				_, _ = tokenexchange.ExchangeToken(c, te, "subject-token", oidc.AccessTokenType, "", "", nil, nil, nil, "")
 			})
 		}
-	case "rs.Introspect":
-		rsv, err := rs.NewResourceServerJWTProfile(ctx, issuer, cd.client, cd.kid, cd.key.pem, rs.WithClient(hc))
+	case "rs.Introspect", "rs.Introspect.keyfile":
+		var rsv rs.ResourceServer
+		var err error
+		if which == "rs.Introspect" {
+			rsv, err = rs.NewResourceServerJWTProfile(ctx, issuer, cd.client, cd.kid, cd.key.pem, rs.WithClient(hc))
+		} else {
+			path, rm, e := keyFilePath(cd)
+			if err = e; err == nil {
+				rsv, err = rs.NewResourceServerFromKeyFile(ctx, issuer, path, rs.WithClient(hc))
+			}
+			rm()
+		}
 		if err != nil {
 			return nil, err
 		}
@@ -1322,8 +1368,21 @@ func newHelperInst(which, issuer string, aud []string, cd cand) (*helperInst, er
 			return sent(func(c context.Context) { _, _ = rs.Introspect[*oidc.IntrospectionResponse](c, rsv, "some-token") })
 		}
 	case "rp.DeviceAuthorization", "rp.CodeExchangeHandler":
+		// the three ways to hand the relying party its key (rotating with the instances)
+		signerOpt, rm := rp.WithJWTProfile(rp.SignerFromKeyAndKeyID(cd.key.pem, cd.kid)), func() {}
+		switch helperCreated % 3 {
+		case 1:
+			signerOpt = rp.WithJWTProfile(rp.SignerFromKeyFile(keyFileJSON(cd)))
+		case 2:
+			path, rmf, e := keyFilePath(cd)
+			if e != nil {
+				return nil, e
+			}
+			signerOpt, rm = rp.WithClientKey(path), rmf
+		}
 		party, err := rp.NewRelyingPartyOIDC(ctx, issuer, cd.client, "", "https://rp.example.com/cb", []string{"openid"},
-			rp.WithJWTProfile(rp.SignerFromKeyAndKeyID(cd.key.pem, cd.kid)), rp.WithHTTPClient(hc))
+			signerOpt, rp.WithHTTPClient(hc))
+		rm()
 		if err != nil {
 			return nil, err
 		}
@@ -1429,6 +1488,9 @@ func helperCase(r drv.Rand, w *emit.Writer, wd world, bump func(string)) {
 	var rc *routerCall
 	if host, ok := isRouterIssuer(in.issuer); ok && r.Chance(3, 4) {
 		c := pickRouterCall(r, in.cd.client)
+		if r.Bool() { // every (router, endpoint) cell in turn, redeeming its own: must be accepted
+			c = cycleRouterCall(r, "base", in.cd.client)
+		}
 		c.host = host
 		rc = &c
 	}
@@ -1456,7 +1518,7 @@ func helperSweep(r drv.Rand, w *emit.Writer, wd world, bump func(string)) {
 		}
 		presentHelper(r, w, wd, bump, in, tok, h0, h1, drv.Pick(r, entries), drv.Pick(r, shortVsets), nil, true)
 		if host, ok := isRouterIssuer(in.issuer); ok && r.Bool() {
-			c := pickRouterCall(r, in.cd.client)
+			c := cycleRouterCall(r, "base", in.cd.client)
 			c.host = host
 			presentHelper(r, w, wd, bump, in, tok, h0, h1, "ERouter", vset{time.Hour, time.Second}, &c, true)
 		}
@@ -1615,6 +1677,10 @@ func requestCase(r drv.Rand, w *emit.Writer, wd world) {
 	via := r.Chance(1, 3)
 	supported := !via || !r.Chance(1, 6)
 	named := drv.Pick(r, []string{"c-alpha", "c-alpha", "c-beta", "c-beta", "c-gamma"})
+	long := r.Chance(1, 25)
+	if long {
+		wd, named = longWorld(wd.keys), longClient
+	}
 	own := drv.Pick(r, wd.regsOf(named))
 	plan := tokPlan{kind: "jws", key: own.key, kid: own.kid, alg: drv.Pick(r, naturalAlgs(own.key.kind))}
 
@@ -1693,6 +1759,9 @@ func requestCase(r drv.Rand, w *emit.Writer, wd world) {
 	muts := []string{}
 	nm := []int{0, 0, 0, 0, 0, 1, 1, 1, 1, 2}[r.IntN(10)]
 	near := r.Chance(3, 10) // exactly one near-miss string, everything else valid
+	if long && r.Bool() {
+		near = true
+	}
 	if near {
 		nm = 1
 	}
@@ -1802,7 +1871,7 @@ func requestCase(r drv.Rand, w *emit.Writer, wd world) {
 	if len(muts) == 0 {
 		muts = []string{"none"}
 	}
-	tags := []string{"kind=request", fmt.Sprintf("via_authorize=%v", via), fmt.Sprintf("supported=%v", supported), "keytype=" + plan.key.kind, fmt.Sprintf("nmut=%d", nm)}
+	tags := []string{"kind=request", fmt.Sprintf("long_client=%v", long), fmt.Sprintf("via_authorize=%v", via), fmt.Sprintf("supported=%v", supported), "keytype=" + plan.key.kind, fmt.Sprintf("nmut=%d", nm)}
 	for _, m := range muts {
 		tags = append(tags, "mut="+m)
 	}
